@@ -485,6 +485,25 @@ def do_min(ctx, batch, case):
                 nontrivial=len(log["searches"]) > 0))
         else:
             ctx.stat("min:non-finite-energy(not modelled)")
+    # (b') direction rules with a closed form: SteepestDescent is exactly -g [class E]; RelaxedNewton is -g/metric for
+    #      the diagonal metric of PolyEnergy [class T]
+    if case["minimizer"] in ("SteepestDescent", "RelaxedNewton"):
+        for k, dlog in enumerate(log["dirs"]):
+            g, d = dlog["g"], dlog["d"]
+            if not (np.isfinite(g).all() and np.isfinite(d).all()):
+                continue
+            if case["minimizer"] == "SteepestDescent":
+                ok = bool(np.array_equal(d, -g))
+                want = -g
+            else:
+                h = np.array(I.poly_diag_hess(case["energy"]["terms"], [float(v) for v in dlog["x"]]))
+                want = -g / (np.abs(h) + 0.5)
+                ok = bool(np.max(np.abs(d - want)) <= 1e-12 * max(np.max(np.abs(want)), 1e-300))
+            ctx.stat("min:direction-rule-checked")
+            if not ok:
+                ctx.disagree(case, {"direction": d.tolist(), "call": k}, {"direction": want.tolist(), "call": k},
+                             f"{case['minimizer']}.get_descent_direction vs its closed form")
+                break
     # (c) L-BFGS twins on the history this run produced
     if case["minimizer"] in ("L_BFGS", "VL_BFGS") and log["dirs"]:
         pts, nres = [], 0
